@@ -278,11 +278,9 @@ impl<R: RuleType> Error<R> {
             sl.to_owned().replace(&['\r', '\n'][..], "")
         };
         let ll = line_iter.last();
-        let continued_line = if visualize_ws {
-            ll.map(str::to_owned)
-        } else {
-            ll.map(visualize_whitespace)
-        };
+        // The continued line is interpolated into the rendered rows, so its line terminator
+        // must never be emitted raw.
+        let continued_line = ll.map(visualize_whitespace);
 
         Error {
             variant,
